@@ -1,0 +1,9 @@
+//go:build verif
+
+// Contracts for the verification machinery in /verif (comment-only file; compiled only with -tags verif).
+package typeshelper
+
+//@ -- type predicates are used as pure functions of the type (bodies not verified)
+//@ func TypeBarsNilness
+//@ pure
+//@ nobody
